@@ -678,10 +678,11 @@ impl NodeRecordStore {
             }
         }
 
+        // a record the store has no room for is refused before it can enter the cache
+        self.prune_records_if_needed(key)?;
+
         // Store the new record to the cache
         self.records_cache.push_back(key.clone(), r.clone());
-
-        self.prune_records_if_needed(key)?;
 
         let filename = Self::generate_filename(key);
         let file_path = self.config.storage_dir.join(&filename);
